@@ -318,6 +318,36 @@ type kvObs struct {
 	Val      []byte
 	List     []kvPair // drained Dump
 	Panic    string
+	// Clobber: the call wrote into the caller's key buffer beyond the key ("" = it did not)
+	Clobber string
+}
+
+// kvKeyBuf hands the key to the backend the way a caller that cuts keys out of a larger buffer does: a
+// slice with spare capacity, the bytes behind it belonging to the caller. check reports what changed.
+func kvKeyBuf(k string) (key []byte, check func() string) {
+	const tail = 12
+	buf := make([]byte, len(k)+tail)
+	copy(buf, k)
+	for i := len(k); i < len(buf); i++ {
+		buf[i] = 0xa5
+	}
+	return buf[:len(k)], func() string {
+		if string(buf[:len(k)]) != k {
+			return fmt.Sprintf("the key itself changed from %q to %q", k, buf[:len(k)])
+		}
+		for i := len(k); i < len(buf); i++ {
+			if buf[i] != 0xa5 {
+				return fmt.Sprintf("the %d bytes behind the key (all 0xa5) now read %q", tail, buf[len(k):])
+			}
+		}
+		return ""
+	}
+}
+
+func scribble(b []byte) {
+	for i := range b {
+		b[i] = '#'
+	}
 }
 
 func kvApply(h db.Db, o ref.KVOp) (obs kvObs) {
@@ -342,11 +372,21 @@ func kvApply(h db.Db, o ref.KVOp) (obs kvObs) {
 	case "lock":
 		obs.Err = h.SetLock(o.Typ, o.On)
 	case "put":
-		obs.Err = h.Put(ctx, []byte(o.Key), []byte(o.Val))
+		key, chk := kvKeyBuf(string(o.Key))
+		val := []byte(o.Val)
+		obs.Err = h.Put(ctx, key, val)
+		obs.Clobber = chk()
+		scribble(val) // the caller reuses its value buffer after the call
 	case "get":
-		obs.Val, obs.Err = h.Get(ctx, []byte(o.Key))
+		key, chk := kvKeyBuf(string(o.Key))
+		var v []byte
+		v, obs.Err = h.Get(ctx, key)
+		obs.Clobber = chk()
 		if obs.Err != nil {
 			obs.NotFound = db.IsNotFound(obs.Err)
+		} else {
+			obs.Val = append([]byte{}, v...)
+			scribble(v) // ... and does what it likes with the slice it was given
 		}
 	case "dump":
 		d, err := h.Dump(ctx, []byte(o.Key))
